@@ -20,6 +20,10 @@ class Unsupported(Exception):
     pass
 
 
+class IntOverflow(Exception):
+    pass
+
+
 class _Return(Exception):
     def __init__(self, v):
         self.v = v
@@ -105,8 +109,11 @@ def _wrap(v, ty):
 
 class Interp:
     def __init__(self, prog, hooks=None, fields=None, max_steps=200000, summarize_loops=False,
-                 globals_=None):
+                 globals_=None, sym_cap=None, int_overflow=False):
         self.prog = prog
+        self.sym_cap = sym_cap            # symbolic values are assumed below constants >= this
+        self.assumed = set()
+        self.int_overflow = int_overflow  # raise IntOverflow when int arithmetic leaves 32 bits
         self.globals = globals_ or {}
         self.hooks = hooks or {}
         self.fields = fields or {}        # member field name -> value (for n->rn etc.)
@@ -474,6 +481,14 @@ class Interp:
                     return R.scale(L.k)
                 if R.is_const():
                     return L.scale(R.k)
+            if self.sym_cap is not None and op in ("<", "<=", ">", ">="):
+                # the unsaturated case: a symbolic size is below any constant limit >= sym_cap
+                if R.is_const() and not L.is_const() and R.k >= self.sym_cap:
+                    self.assumed.add(R.k)
+                    return int(op in ("<", "<="))
+                if L.is_const() and not R.is_const() and L.k >= self.sym_cap:
+                    self.assumed.add(L.k)
+                    return int(op in (">", ">="))
             raise Unsupported("symbolic op " + op)
         if not (isinstance(l, int) and isinstance(r, int)):
             if op in ("==", "!=") and (l is None or r is None or isinstance(l, Ptr) or isinstance(r, Ptr)):
@@ -485,12 +500,11 @@ class Interp:
                 eq = ln == rn if (ln or rn) else False
                 return int(eq if op == "==" else not eq)
             return OPAQUE
-        if op == "+":
-            return l + r
-        if op == "-":
-            return l - r
-        if op == "*":
-            return l * r
+        if op in ("+", "-", "*"):
+            v = l + r if op == "+" else (l - r if op == "-" else l * r)
+            if self.int_overflow and not (-(1 << 31) <= v < (1 << 31)):
+                raise IntOverflow("%d %s %d" % (l, op, r))
+            return v
         if op == "/":
             if r == 0:
                 raise Unsupported("division by zero")
